@@ -197,21 +197,40 @@ def sizing(ctx, facts):
 
 
 def challenge(ctx, facts):
-    ctx.rule("RANGE-challenge: hash_to_field returns truncate_from(val % (prime - exclude_to) + exclude_to) under assert!(2*exclude_to < prime)")
+    ctx.rule("RANGE-challenge: the argument of truncate_from in hash_to_field, evaluated as a function of (hash value, PRIME, exclude_to) for small primes and every exclude_to with 2*exclude_to < prime, lies in [exclude_to, prime) and takes every value of that interval once per period; the assertion 2*exclude_to < prime dominates")
     b = facts.bodies.get("helpers::hashing::hash_to_field")
     if b is None:
         return ctx.missing("RANGE-challenge", "helpers::hashing::hash_to_field")
     ctx.count(bodies=1)
     tf = flow.find_calls(b, re.compile(r"truncate_from$"))
-    ok = False
-    e = None
+    from rules.C13 import ieval, NoEval
+    ok, why = False, "hash_to_field does not return truncate_from(..)"
     for bb, t in tf:
-        if t["d"] == [0]:
-            e = flow.expr_of(b, t["args"][0])
-            if e[0] == "bin" and e[1] == "Add":
-                rem, ex = (e[2], e[3]) if e[2][0] == "bin" else (e[3], e[2])
-                ok = rem[0] == "bin" and rem[1] == "Rem" and rem[3][0] == "bin" and rem[3][1] == "Sub" and str(rem[3][3]) == str(ex) and ex[:2] == ("arg", 3)
-    ctx.ob("RANGE-challenge", "shape", ok, "val % (prime - exclude_to) + exclude_to  (in [exclude_to, prime))" if ok else f"challenge is {str(e)[:200]}: it can fall inside the interpolation domain [0, exclude_to)", site_of(b))
+        if t["d"] != [0]:
+            continue
+        e = flow.expr_of(b, t["args"][0], max_depth=14)
+        vals = [x for x in malsec.walk_calls(e) if x[1].endswith("from_le_bytes")]
+        primes = [x for x in malsec._leaves(e, "const") if isinstance(x[1], str) and x[1].endswith("PRIME")]
+        if not vals or not primes:
+            why = "the challenge is not computed from the hash value and the field's PRIME"
+            continue
+        VAL, PR, EX = vals[0], primes[0], ("arg", 3)
+        bad = None
+        try:
+            for p in (5, 7, 11, 13, 31):
+                for ex in range(0, p):
+                    if not 2 * ex < p:
+                        continue
+                    got = [ieval(e, {VAL: v, PR: p, EX: ex}) for v in range(3 * p)]
+                    if any(not (ex <= g < p) for g in got) and bad is None:
+                        g = next(g for g in got if not (ex <= g < p))
+                        bad = f"with prime {p} and exclude_to {ex} the challenge can be {g}, outside [{ex}, {p}): it falls inside the interpolation domain or is reduced a second time by truncate_from"
+                    if sorted(got[:p - ex]) != list(range(ex, p)) and bad is None:
+                        bad = f"with prime {p} and exclude_to {ex} the challenge does not take every value of [{ex}, {p}) once per period of the hash"
+        except NoEval as exn:
+            bad = f"cannot evaluate the challenge expression ({exn})"
+        ok, why = bad is None, (bad or "challenge in [exclude_to, prime), every value once per period (evaluated for primes 5..31, all admissible exclude_to)")
+    ctx.ob("RANGE-challenge", "shape", ok, why, site_of(b))
     # the 2*exclude_to < prime assertion dominates
     dom = b.dominators()
     g = False
